@@ -182,6 +182,7 @@ def generate(req):
         c.execute("create table t_wr2(k TEXT COLLATE NOCASE, n, v, PRIMARY KEY(k DESC)) WITHOUT ROWID")
         c.execute("create index ix_wr2_n on t_wr2(n)")
         c.execute("create index ix_wr2_nk on t_wr2(n, k COLLATE BINARY)")
+        c.execute("create index ix_wr2_nk2 on t_wr2(n, K)")          # pk column re-listed: same collation, other direction and spelling
         m = max(4, n // 3)
         c.executemany("insert or ignore into t_wr2 values(?,?,?)",
                       [(g.text_value() + (str(r.randint(0, m)) if r.random() < 0.7 else ""), r.randint(0, 9) if r.random() > 0.1 else None,
